@@ -158,7 +158,7 @@ func (c *corpus) inputT(r *rng, pLarge int, theme string) scn.Input {
 	return in
 }
 
-var c11Ops = []string{"print", "dump", "dumpT", "dumpP", "dumpTP", "traverse", "resolve", "resolve", "print"}
+var c11Ops = []string{"print", "dump", "dumpT", "dumpP", "dumpTP", "traverse", "resolve", "resolve", "print", "printP", "null"}
 var siteClassNames = []string{"cli", "pool", "lexer-new", "lexer-helpers", "newlines", "scanner", "php7-actions", "php5-actions", "parser-glue", "position-builder", "printer", "dumper", "resolver", "traverser", "version", "errors"}
 var knobs = []int{0, 0, 0, 0, 1, 2, 3, 5, 8, 64}
 
@@ -334,7 +334,7 @@ func genC11(c *corpus, seed uint64) *scn.Scenario {
 					// its visitor); the reference run meets the same fault
 					if op.Kind == "traverse" {
 						op.Fault = &scn.WFault{Kind: "abort", At: r.n(60)}
-					} else if op.Kind != "resolve" {
+					} else if op.Kind != "resolve" && op.Kind != "null" {
 						op.Fault = &scn.WFault{Kind: wfaults[r.n(len(wfaults))], At: r.n(400)}
 					}
 				}
@@ -381,7 +381,7 @@ func smallest(in []scn.Input) int {
 	return b
 }
 
-var c13Ops = []string{"print", "print", "dump", "dumpT", "dumpP", "dumpTP", "traverse", "resolve", "resolve"}
+var c13Ops = []string{"print", "print", "dump", "dumpT", "dumpP", "dumpTP", "traverse", "resolve", "resolve", "printP", "null"}
 var wfaults = []string{"err", "errsticky", "short", "panic"}
 
 func genC13(c *corpus, seed uint64) *scn.Scenario {
@@ -409,7 +409,7 @@ func genC13(c *corpus, seed uint64) *scn.Scenario {
 			continue
 		}
 		op := scn.Op{Kind: kinds[r.n(len(kinds))]}
-		if withFaults && (op.Kind == "print" || strings.HasPrefix(op.Kind, "dump")) && r.chance(40) {
+		if withFaults && (strings.HasPrefix(op.Kind, "print") || strings.HasPrefix(op.Kind, "dump")) && r.chance(40) {
 			op.Fault = &scn.WFault{Kind: wfaults[r.n(len(wfaults))], At: r.n(100000)}
 		}
 		if withFaults && op.Kind == "traverse" && r.chance(40) {
